@@ -44,8 +44,8 @@ def main():
         "setup_cmd": "./check setup",
         "hooks": {
             "guard": "CPPCMS_VERIF",
-            "enable": "checks build /repo out of tree (build/asan, build/tsan) with clang, -DCPPCMS_VERIF and sanitizers; no source hook exists: "
-                      "observation points are obtained by link-time wrapping (--wrap=readv,writev,time,write) inside the harness executables",
+            "enable": "checks build /repo out of tree (build/asan2, build/tsan2) with clang, -DCPPCMS_VERIF and sanitizers; no source hook exists: "
+                      "observation points are obtained by link-time wrapping (--wrap=readv,writev,time,write,epoll_wait,poll,select,connect, chosen per harness) inside the harness executables",
             "baseline_off_cmd": "cmake -G Ninja -S /repo -B /repo/_build >/dev/null && cmake --build /repo/_build -j16 >/dev/null && ctest --test-dir /repo/_build -j8 --timeout 900",
             "source_commits": [],
             "add_only": True,
@@ -54,7 +54,7 @@ def main():
         "checks": checks,
         "not_applicable": na,
         "notes": "Driver: ./check <ID> --tier quick|thorough (exit 0 ok, 1 + VIOLATION line, 2 + BROKEN-CHECK line when the harness itself malfunctioned). "
-                 "Known / fixed findings: known_findings.json. Sensitivity experiments: tools/sens.py + tools/mutations.py, results in sensitivity/. Seeded breakages: seeded/.",
+                 "Known / fixed findings: known_findings.json. Sensitivity experiments: tools/sens.py with the MUTATIONS lists in props/cNN.py, results in sensitivity/ (SUMMARY.md). Seeded breakages by independent sub-agents, four rounds: seeded/<ID>-<round>/ (DESIGN.md 8.4).",
     }
     with open(os.path.join(HERE, "MANIFEST.json"), "w") as f:
         json.dump(man, f, indent=1)
